@@ -315,7 +315,8 @@ func (prv *PrivateKey) Decrypt(c, s1, s2 []byte) (m []byte, err error) {
 	switch c[0] {
 	case 2, 3, 4:
 		rLen = (prv.PublicKey.Curve.Params().BitSize + 7) / 4
-		if len(c) < (rLen + hLen + 1) {
+		// the symmetric part starts with a whole IV block: symDecrypt makes a slice of len(ct)-BlockSize
+		if len(c) < (rLen + hLen + params.BlockSize) {
 			err = ErrInvalidMessage
 			return
 		}
